@@ -1,4 +1,6 @@
 """C17 - generate() forgets the object's past."""
+import os
+
 import core
 import uwgutil as U
 
@@ -64,7 +66,10 @@ def apply_op(m, tr, op):
     elif kind == 'unseta':
         m.albroof = None
     elif kind == 'setp':           # other parameters (not part of the toy abstraction)
-        setattr(m, op[1], op[2])
+        val = op[2]
+        if op[1] == 'epw_path':
+            val = EPWS[val]
+        setattr(m, op[1], val)
 
 
 def op_text(i, op):
@@ -90,18 +95,40 @@ def gen_history(rng, with_params):
         elif with_params:
             ops.append(rng.choice([('setp', 'sensanth', rng.choice([5, 20, 40])),
                                    ('setp', 'month', rng.choice([1, 6, 9])),
+                                   ('setp', 'day', rng.choice([1, 15])),
                                    ('setp', 'grasscover', rng.choice([0.0, 0.1, 0.2])),
                                    ('setp', 'bldheight', rng.choice([10, 25])),
                                    ('setp', 'shgc', rng.choice([None, 0.0, 0.4])),
-                                   ('setp', 'flr_h', rng.choice([None, 3.5]))]))
+                                   ('setp', 'flr_h', rng.choice([None, 3.5])),
+                                   ('setp', 'autosize', rng.choice([True, False])),
+                                   ('setp', 'vegroof', rng.choice([None, 0.0, 1.0])),
+                                   ('setp', 'albwall', rng.choice([None, 0.0, 0.6])),
+                                   ('setp', 'droad', rng.choice([0.5, 0.25])),
+                                   ('setp', 'epw_path', rng.choice(['A', 'B']))]))
     return ops + [('gen',), ('sim',)]
 
 
 def base_model(outdir):
-    return U.new_model(outdir=outdir, outname='c17.epw', nday=1, dtsim=900, bld=STOCK, zone='1A')
+    return U.new_model(outdir=outdir, outname='c17.epw', nday=1, dtsim=300, bld=STOCK, zone='1A')
 
 
-PARAMS = ['glzr', 'albroof', 'sensanth', 'month', 'grasscover', 'bldheight', 'shgc', 'flr_h']
+PARAMS = ['glzr', 'albroof', 'sensanth', 'month', 'day', 'grasscover', 'bldheight', 'shgc', 'flr_h',
+          'autosize', 'vegroof', 'albwall', 'droad', 'epw_path']
+EPWS = {}
+
+
+def make_epws(work):
+    """Rural file A = the shipped Singapore EPW; B = a copy that is 3 K warmer and drier."""
+    import csv
+    a = U.rp(U.EPW_SGP)
+    b = os.path.join(work, 'rural_B.epw')
+    rows = list(csv.reader(open(a, newline='', errors='ignore')))
+    for r in rows[8:]:
+        r[6] = '%.1f' % (float(r[6]) + 3.0)
+        r[8] = '%d' % max(10, int(float(r[8])) - 15)
+    with open(b, 'w', newline='') as f:
+        csv.writer(f, lineterminator='\n').writerows(rows)
+    EPWS['A'], EPWS['B'] = a, b
 
 
 def run(chk):
@@ -112,9 +139,13 @@ def run(chk):
     work = chk.work()
     rng = chk.rng
     nh = 6 if chk.tier == 'quick' else 60
+    make_epws(work)
     corpus = [[('gen',), ('sim',), ('gen',), ('sim',)],
               [('setg', 0), ('gen',), ('unsetg',), ('gen',), ('sim',)],
-              [('sim',), ('seta', 1000), ('gen',), ('sim',), ('unseta',), ('gen',), ('sim',)]]
+              [('sim',), ('seta', 1000), ('gen',), ('sim',), ('unseta',), ('gen',), ('sim',)],
+              [('setp', 'autosize', True), ('gen',), ('setp', 'autosize', False), ('gen',), ('sim',)],
+              [('gen',), ('setp', 'epw_path', 'B'), ('gen',), ('sim',)],
+              [('setp', 'month', 7), ('gen',), ('sim',), ('setp', 'month', 1), ('setp', 'droad', 0.25), ('gen',), ('sim',)]]
     hist = corpus + [gen_history(rng, with_params=(k % 2 == 1)) for k in range(nh)]
     cases, bad, nsim = [], 0, 0
     for h in hist:
@@ -161,7 +192,7 @@ def run(chk):
                mismatches=bad)
     # state digest right after generate (separate, cheap): history then generate vs fresh generate
     bad2 = 0
-    for h in hist[:4 if chk.tier == 'quick' else 20]:
+    for h in hist:
         m = base_model(work)
         tr = Tracker(uwg, 0)
         for op in h[:-1]:
@@ -177,7 +208,7 @@ def run(chk):
                           case={'history': [list(o) for o in h[:-1]]},
                           observed='state after history+generate differs from fresh generate',
                           expected='identical digests of BEM, Sch, road, rural, UCM, UBL, RSM, forcing, clock')
-    chk.direct('state-after-generate(digest)', min(len(hist), 4 if chk.tier == 'quick' else 20), 4,
+    chk.direct('state-after-generate(digest)', len(hist), len(hist),
                'deep bit-exact digest of every object a simulation starts from, after history+generate vs fresh',
                mismatches=bad2)
     chk.assumptions.append('the physics is uninterpreted in the theorem (any machine); the tie checks that the '
